@@ -101,11 +101,26 @@ static void out_pad(OutSink *k, unsigned from, unsigned width)
 
 static void out_str(OutSink *k, const char *s, u8 flags, u8 width, u8 prec)
 {
-	unsigned i, len = out_strlen(s);
-	if (prec != 0xff && len > prec) len = prec;
-	if (!(flags & 1)) out_pad(k, len, width);
-	for (i = 0; i < len; ++i) out_put(k, (u8) s[i], OUT_STR);
-	if (flags & 1) out_pad(k, len, width);
+	unsigned i;
+	if ((flags & 1) || width == 0) {
+		/* left-justified (or no width): one pass with a concrete position; inside the field width every position
+		 * emits exactly one byte (string byte or blank), so the token count stays independent of the string
+		 * length whenever the string is not longer than its field */
+		unsigned ended = 0;
+		for (i = 0; i < OUT_MAXSTR; ++i) {
+			u8 c = ' ';
+			if (prec != 0xff && i >= prec) ended = 1;
+			if (!ended) { c = (u8) s[i]; if (c == '\0') ended = 1; }
+			if (ended) { if (i >= width) break; out_put(k, ' ', OUT_PAD); }
+			else out_put(k, c, OUT_STR);
+		}
+		CHECK(i < OUT_MAXSTR, "output model: %s argument within the modelled string bound");
+	} else {
+		unsigned len = out_strlen(s);
+		if (prec != 0xff && len > prec) len = prec;
+		out_pad(k, len, width);
+		for (i = 0; i < len; ++i) out_put(k, (u8) s[i], OUT_STR);
+	}
 }
 
 static void out_hex(OutSink *k, u8 flags, u8 width, unsigned v)
